@@ -2,21 +2,6 @@
 // The data types mirror soroban-sdk-25.0.2/src/auth.rs item by item; their encodings follow rule T7
 // (enum variant -> Vec[Sym(name), fields..], struct -> Vec[fields..]).
 
-/// a raw host value: the model keeps its decoded form as ghost state
-pub struct Val { pub v: Ghost<SV> }
-impl View for Val {
-    type V = SV;
-    open spec fn view(&self) -> SV { self.v@ }
-}
-impl ToSV for Val {
-    open spec fn sv(&self) -> SV { self.v@ }
-    open spec fn unsv(v: SV) -> Self { Val { v: Ghost(v) } }
-    proof fn lemma_rt(&self) {}
-}
-impl Clone for Val {
-    #[verifier::external_body]
-    fn clone(&self) -> (r: Self) ensures r == *self { unimplemented!() }
-}
 
 pub struct ConversionError;
 
